@@ -139,6 +139,7 @@ type Exec struct {
 	// incarnation re-allocated by the pod-IP sync of a stale update event); LastKey: last owner key seen per IP
 	MixedKeys map[string]bool
 	LastKey   map[string]string
+	dropped   map[string]bool // IPs that some reload (or restart onto another configuration) removed from the configuration
 	// bookkeeping for oracles
 	LastResults []*OpResult
 }
@@ -198,6 +199,28 @@ func (x *Exec) buildAPI() {
 	ws.Route(ws.DELETE("/pool/{name}").To(func(r *restful.Request, resp *restful.Response) { pc().Delete(r, resp) }))
 	x.container = restful.NewContainer()
 	x.container.Add(ws)
+}
+
+// everDropped tells whether a reload ever ran with a configuration that does not contain the IP.
+func (x *Exec) everDropped(ip string) bool { return x.dropped[ip] }
+
+func (x *Exec) noteConfig(pools []PoolT) {
+	if x.dropped == nil {
+		x.dropped = map[string]bool{}
+	}
+	all := AllIPsOf(pools)
+	for ip := range x.C.Topo.AllIPs() {
+		if _, ok := all[ip]; !ok {
+			x.dropped[ip] = true
+		}
+	}
+	for _, c := range x.C.Configs {
+		for ip := range AllIPsOf(c) {
+			if _, ok := all[ip]; !ok {
+				x.dropped[ip] = true
+			}
+		}
+	}
 }
 
 // trackMixed maintains MixedKeys / LastKey (classification of a known finding, see known_findings.txt).
@@ -410,6 +433,7 @@ func (x *Exec) opClosure(op Op, res *OpResult) (string, func()) {
 				w.mu.Lock()
 				x.ConfInForce = x.C.Configs[idx]
 				x.confIdx = idx
+				x.noteConfig(x.ConfInForce)
 				for ip := range x.Reserved {
 					if !inConfig(x.ConfInForce, ip) {
 						delete(x.Reserved, ip) // the reload deleted the object of an IP that is not configured any more
